@@ -15,29 +15,42 @@ from theorems import get
 MODULES, THEOREMS = get('C16')
 
 
-def one_history(rng, ordering, nsteps):
-    h = B.History(ordering)
-    names = list(ordering)
-    h.nodes()
-    for _ in range(nsteps):
-        live = h.live_indices()
-        r = rng.random()
-        if not live or r < 0.25:
-            h.new(B.rand_exp(rng, rng.choice([1, 2, 3, 3]), names), lam=rng.random() < 0.2)
-        elif r < 0.5:
-            h.binop(rng.choice(['and', 'or', 'xor']), rng.choice(live), rng.choice(live))
-        elif r < 0.58:
-            h.inv(rng.choice(live))
-        elif r < 0.68:
-            h.restrict(rng.choice(live), rng.choice(names), rng.random() < 0.5)
-        elif r < 0.8:
-            h.drop(rng.choice(live))
-        elif r < 0.9:
-            h.nodes()
+def step(rng, h, names, shared):
+    """one random operation on history h; `shared` carries the last expression parsed by ANY live history, so that
+    the same text is parsed under different orderings while the earlier results are still referenced"""
+    live = h.live_indices()
+    r = rng.random()
+    if not live or r < 0.25:
+        if shared and rng.random() < 0.5 and all(v in names for v in shared[0][1]):
+            e = shared[0][0]
         else:
-            h.eq(rng.choice(live), rng.choice(live))
-    h.nodes()
-    # identity vs function, independent of the model: all pairs of live roots
+            e = B.rand_exp(rng, rng.choice([1, 2, 3, 3]), names)
+            shared[:] = [(e, vars_of(e))]
+        h.new(e, lam=rng.random() < 0.2)
+    elif r < 0.5:
+        h.binop(rng.choice(['and', 'or', 'xor']), rng.choice(live), rng.choice(live))
+    elif r < 0.58:
+        h.inv(rng.choice(live))
+    elif r < 0.68:
+        h.restrict(rng.choice(live), rng.choice(names), rng.random() < 0.5)
+    elif r < 0.8:
+        h.drop(rng.choice(live))
+    else:
+        h.eq(rng.choice(live), rng.choice(live))
+
+
+def vars_of(e):
+    if e[0] == 'v':
+        return {e[1]}
+    out = set()
+    for x in e[1:]:
+        if isinstance(x, tuple):
+            out |= vars_of(x)
+    return out
+
+
+def finish(h):
+    names = list(h.ordering)
     live = h.live_indices()
     tts = {i: B.truth_table(lambda env, o=h.pool[i]: B.impl_eval(o.root, env), names) for i in live}
     pairs = 0
@@ -50,10 +63,27 @@ def one_history(rng, ordering, nsteps):
                            % (i, j, same_f, same_o, h.pool[i].root is h.pool[j].root))
     for i in live:
         if not B.ordered_reduced(h.pool[i].root, h.ordering):
-            h.notes.append('pool[%d] is not ordered/reduced' % i)
+            h.notes.append('pool[%d] is not ordered/reduced w.r.t. its own ordering' % i)
     h.pairs = pairs
-    h.close()
-    return h
+
+
+def history_group(rng, orderings, nsteps):
+    """several histories, one per ordering, alive at the same time and advanced in turns (the node store and any
+    module-level state are shared by all of them); the live-node count is taken while only ONE of them is alive"""
+    hs = [B.History(o) for o in orderings]
+    shared = []
+    hs[0].nodes()
+    for _ in range(nsteps):
+        h = rng.choice(hs)
+        step(rng, h, list(h.ordering), shared)
+    for h in hs:
+        finish(h)
+    # close all but the first, then count the live nodes for the first
+    for h in hs[1:]:
+        h.close()
+    hs[0].nodes()
+    hs[0].close()
+    return hs
 
 
 def run(res):
@@ -62,12 +92,14 @@ def run(res):
     B.live_nonterminals()
     hs = []
     orders = list(itertools.permutations(B.VARS))
-    n = 250 if quick else 3000
+    n = 120 if quick else 1500
     for k in range(n):
         nv = rng.choice([2, 3, 4, 4])
-        ordering = list(rng.choice(orders))[:]
-        ordering = [v for v in ordering if v in B.VARS[:nv]]
-        hs.append(one_history(rng, ordering, rng.choice([10, 20, 30, 40])))
+        names = B.VARS[:nv]
+        group = []
+        for _ in range(rng.choice([1, 2, 3])):
+            group.append([v for v in rng.choice(orders) if v in names])
+        hs.extend(history_group(rng, group, rng.choice([20, 40, 60])))
     st = B.run_histories(res, hs, 'C16')
     problems = proof_coverage(res, THEOREMS, MODULES)
     for p in problems:
@@ -76,8 +108,10 @@ def run(res):
     res.coverage.update(st)
     res.coverage.update({
         'evaluations': st['operations'], 'distinct_nontrivial': len(set(h.line() for h in hs)),
-        'rule': 'random histories of 10-40 steps (parse/lambda-parse, &, |, ^, ~, restrict, drop, gc+live-node scan, ==) '
-                'over <=4 variables, orderings drawn from all 24 permutations; distinct_nontrivial = distinct histories',
+        'rule': 'groups of 1-3 histories (one ordering each, drawn from all 24 permutations of <=4 variables) alive at the '
+                'same time and advanced in turns for 20-60 steps (parse/lambda-parse — half of the time re-parsing the '
+                'text another live history has just parsed —, &, |, ^, ~, restrict, drop, ==), live-node scan before and '
+                'after; distinct_nontrivial = distinct histories',
         'pairs_compared_identity_vs_function': pairs,
         'traces_validated_against_impl': len(hs),
     })
